@@ -164,7 +164,7 @@ func Scribble(rs []*result.CertRevocationResult) {
 
 // IsHTTPKind reports whether a URL kind is served over the simulated network.
 func IsHTTPKind(k string) bool {
-	return k == "http" || k == "HTTP" || k == "httpq" || k == "httpc" || k == "same"
+	return k == "http" || k == "HTTP" || k == "httpq" || k == "httpc" || k == "same" || k == "httph"
 }
 
 // Outcome is everything observed from one execution.
@@ -481,6 +481,14 @@ func RouteOf(route string) (pos int, typ string, slot int, part string, ok bool)
 	path := ""
 	if i := strings.Index(route, "/"); i >= 0 {
 		host, path = route[:i], route[i+1:]
+	}
+	if strings.HasPrefix(host, "shared.") {
+		// one host for the whole family: position and slot are in the path
+		var tail string
+		if n, _ := fmt.Sscanf(path, "p%ds%d/%s", &pos, &slot, &tail); n == 3 && strings.HasPrefix(tail, "base") {
+			return pos, "d", slot, "base", true
+		}
+		return 0, "", 0, "", false
 	}
 	var t byte
 	var rest string
